@@ -8,6 +8,10 @@ import Cellml.Units.Worklist
     →  `(ok (name (scale…) (root…) (dims…)) …)` for every definition in request order
      | `(err ValueError|UndefinedUnitError|BadDefinition …)` | `(unsupported "what")`.
 
+    `(C03 offset "text")` → `(offset refused)` | `(offset accepted)`: the offset test alone (`Units.offsetRejected`),
+    compared with `Parser._make_pint_unit_definition` on ONE `<unit>` element whose offset attribute is any ASCII text
+    (the RELAX NG validation of `load_model` lets only `xsd:decimal` through).
+
     `base_units`: the parser tests `units_element.get('base_units') == 'yes'`; the attribute text travels on the wire
     so that `base_units="no"` is decided here, by the model. -/
 namespace C03
@@ -43,6 +47,11 @@ def handle (args : List Sexp) : Sexp :=
           | .ok (reg, st) => .list (.atom "ok" :: defs.map (report reg st))
           | .error e => addErrSexp e
       | _, _ => .atom "bad-request"
+  | [.atom "offset", t] =>
+      -- the offset test of `_make_pint_unit_definition` on one attribute text (`float(text) != 0`)
+      match atomOf? t with
+      | some text => .list [.atom "offset", .atom (if offsetRejected text then "refused" else "accepted")]
+      | none => .atom "bad-request"
   | _ => .atom "bad-request"
 
 end C03
